@@ -37,6 +37,7 @@ func init() {
 			{ID: "R13o", Floor: 1, Doc: "the printed report lists every code that was counted: Counts.String ranges over the map it prints, not over an external table of known codes", Run: ruleR13o},
 			{ID: "R13p", Floor: 1, Doc: "a full inspection accepts valid CIDv0 sections: the rebuilt CID has the section's CID version (= R02s)", Run: ruleR02s},
 			{ID: "R13q", Floor: 1, Doc: "the payload Inspect walks is the one the header bounds: the three range checks of Header.ReadFrom, DataSize as a positive int64 (= R09e)", Run: ruleR09e},
+			{ID: "R13s", Floor: 1, Doc: "car inspect renders roots with Cid.String(), which every CID has (a fixed multibase refuses CIDv0)", Run: ruleR13s},
 		},
 	})
 }
